@@ -75,7 +75,9 @@ def newBuffer (br : BamReader) : BamReader × Except Err (List UInt8) :=
         | (r2, body, e2) =>
           let br' := { br with r := r2, lastChunk := ⟨bgn, r2.lastChunk.fin⟩ }
           match e2 with
-          | some e => (br', .error e)
+          | some e =>
+            -- `if err == io.EOF { err = io.ErrUnexpectedEOF }`: the size was read but the record is missing
+            (br', .error (if e = .eof then .unexpectedEOF else e))
           | none => (br', .ok body)
 
 /-- `Reader.Read`: the chunk limit test, then the record. -/
